@@ -201,6 +201,8 @@ def _judge(args):
             flavours.append({"src": ["clsraiseclose"] * nsrc_, "call": "asyncdef"})
     if "C06" in want and kind == "fault":
         flavours.append({"src": "clstruthy", "call": "asyncdef"})
+        if case["log"][-1]["ev"] == "call":
+            flavours.append({"src": "list", "call": "asyncdef"})     # a failing callable over a plain (sized) list
     if "C01" in want and kind == "full" and not is_agg and tool != "iter" and not cfg["par"].get("alias"):
         flavours.append({"src": "list", "call": "asyncdef"})    # plain lists, edited by the caller once a tool is through with them
         if any(e["ev"] == "call" for e in case["log"]):
@@ -289,7 +291,7 @@ def _judge(args):
                                       "expected_log": e, "observed_log": g})
                 cnt("C19_cases")
             # C06: a failing use surfaces unchanged, nothing is used afterwards
-            if "C06" in want and fl["src"] in ("cls", "clstruthy") and kind == "fault":
+            if "C06" in want and fl["src"] in ("cls", "clstruthy", "list") and kind == "fault":
                 if not o.fault_fired:
                     # the implementation never performs the use at which the standard library fails:
                     # it finishes (or goes on) where the counterpart raises
